@@ -16,7 +16,7 @@ ROUND_TEXT = {
     2: "; second round: additionally told the one-line titles of the first-round regressions of the same property and asked for rarer triggers",
     3: "; third round: told the one-line titles of the four earlier regressions of the same property and asked for regressions made of two cooperating changes or depending on state left by earlier calls / on the order of calls",
     4: "; fourth round: told the titles of the six earlier regressions of the same property and asked for regressions on growth/capacity/boundary paths of data structures, in rarely used entry points or argument combinations, or arithmetic slips",
-    6: "; sixth round (ten properties): told the titles of the ten earlier regressions of the same property and asked for what a careful reviewer could still miss (a condition right for every value but one, a branch reachable only through two optional arguments, first versus n-th file, absolute versus relative name, read versus built object, a quantity reused after what it describes has changed)",
+    6: "; sixth round: told the titles of the ten earlier regressions of the same property and asked for what a careful reviewer could still miss (a condition right for every value but one, a branch reachable only through two optional arguments, first versus n-th file, absolute versus relative name, read versus built object, a quantity reused after what it describes has changed)",
     5: "; fifth round: told the titles of the eight earlier regressions of the same property and asked for regressions on error / cleanup paths, in the interplay of two features, or visible only for the second or later element / object / call of a kind",
 }
 
